@@ -8,6 +8,11 @@ from . import effects
 
 
 # ------------------------------------------------------------------ affine obligations
+import re as _re
+_OPAQUE_CALL = _re.compile(r"\.(argmin|argmax|item|nonzero|unique|argsort|searchsorted|index|find|count)\(")
+KNOWN_BOUNDED_PREFIXES = ["p_value["]        # c19: argmin over a row of the p-value matrix is < l (allocation confirmed there)
+
+
 def decide_states(ai, fi, stmt, mk_obls, rule, role, scope=(-3, 8), extra_facts=None):
     """For every abstract state reaching `stmt` decide each obligation  lin >= 0.
 
@@ -31,6 +36,11 @@ def decide_states(ai, fi, stmt, mk_obls, rule, role, scope=(-3, 8), extra_facts=
             if verdict == "REFUTED":
                 rel = relevant_atoms(st.G, e)
                 wit = {k: v for k, v in sorted(model.items()) if k in rel}
+                # a counter-model that has to pick the value of a call result the engine knows nothing about (x.argmin(), x.item(), ...)
+                # is not evidence: the engine has no bounds for it.  Module-specific axioms can declare prefixes whose bounds are known.
+                op = [a for a in rel if _OPAQUE_CALL.search(a) and not a.startswith(tuple(KNOWN_BOUNDED_PREFIXES))]
+                if op:
+                    return unrecognised(rule, fi, role, "obligation `%s` depends on `%s`, a call result the engine has no bounds for" % (label, op[0]), stmt)
                 return violation(rule, fi, role,
                                  "obligation `%s` i.e. %r >= 0 is not implied by the guards on path %s" % (
                                      label, e, fmt_trace(st.trace)),
